@@ -274,6 +274,7 @@ static int      sim_no_subms_jitter; /* fixed server delays (A/B differential) *
 static int64_t  sim_fin_delay_us; /* how long after the last answer bytes the server's close becomes visible */
 static uint32_t sim_error_soa_ttl;       /* >0: error replies (FORMERR, SERVFAIL, NOTIMP, REFUSED) carry an authority SOA with this TTL */
 static uint32_t sim_answer_auth_soa_ttl; /* >0: positive answers also carry an authority SOA with this (small) TTL */
+static uint32_t sim_neg_ns_ttl;          /* >0: NXDOMAIN / no-data replies carry an authority NS record with this TTL beside the SOA */
 static int      sim_answer_foreign_class_every; /* addr profile: every n-th address record is class CH */
 static int      sim_answer_dup_every;           /* addr profile: every n-th address record is sent twice */
 static int      sim_fifo_events; /* fire simultaneous events in insertion order */
